@@ -22,6 +22,27 @@ theorem sol_quorum_eq (n : Nat) : solQuorum n = q n := by
 theorem ral_quorum_eq (n : Nat) : ralQuorum n = q n := by
   unfold ralQuorum q; omega
 
+-- which simp lemmas fire depends on the shape of the guard in the source (if / require, one or several)
+set_option linter.unusedSimpArgs false in
+/-- **The guard `verifyVM` applies is the threshold.** `solAcceptsCount n k` is the comparison(s) between the signature count and
+the key count as they stand in `verifyVM` (a call of `quorum()` inlined by `quorum()`'s own return expression, a local holding
+it, or a comparison written out in place - re-extracted on every run): it lets `k` signatures for `n` keys through exactly when
+`k` reaches `floor(2n/3)+1`.  A correct `quorum()` that `verifyVM` does not use proves nothing; this does. -/
+theorem sol_verifyvm_guard (n k : Nat) : solAcceptsCount n k = true ↔ q n ≤ k := by
+  unfold solAcceptsCount q
+  simp only [Bool.not_eq_true', Bool.and_eq_true, decide_eq_true_eq, decide_eq_false_iff_not]
+  omega
+
+/-- … so it is the count guard of the hand model of `verifyVM` (`Contract.solAccepts`: `sigs.length < quorumF keys.length`
+rejects) instantiated with the translated `quorum()`. -/
+theorem sol_model_guard_is_verifyvm_guard (n k : Nat) : (¬ k < solQuorum n) ↔ solAcceptsCount n k = true := by
+  rw [sol_verifyvm_guard, sol_quorum_eq]; omega
+
+/-- Non-vacuity: 2 of 3 is refused, 3 of 3 accepted; 12 of 18 refused, 13 of 18 accepted (the sizes divisible by three are
+where `3k < 2n` and `k < floor(2n/3)+1` part). -/
+example : solAcceptsCount 3 2 = false ∧ solAcceptsCount 3 3 = true ∧ solAcceptsCount 18 12 = false ∧ solAcceptsCount 18 13 = true := by
+  decide
+
 /-- Node and contracts agree on *acceptance*: a signature count passes one threshold iff it passes the others. -/
 theorem complete_iff_accepted (n sigs : Nat) :
     (goQuorum n ≤ sigs ↔ solQuorum n ≤ sigs) ∧ (goQuorum n ≤ sigs ↔ ralQuorum n ≤ sigs) := by
